@@ -153,7 +153,7 @@ Print stale.
     summ = [d for d in res if d["kind"] == "summary"][0]
     for d in res:
         if d["kind"] == "diverge":
-            ctx.finding("diverge:%s:%s" % (d["where"], d.get("key")),
+            ctx.finding("diverge:%s" % d.get("key"),
                         "the same program gave different transcripts (%s): %r vs %r" % (d["where"], d.get("line_a", "")[:300], d.get("line_b", "")[:300]), d)
         elif d["kind"] == "childerror":
             ctx.broken("harness:child", d["err"][-1500:])
